@@ -7,6 +7,7 @@
 package c09
 
 import (
+	"crypto/sha256"
 	"fmt"
 	"runtime"
 	"sort"
@@ -25,15 +26,20 @@ type SimPlan struct {
 	Spec  gen.BMSpec
 	Env   gen.Env
 	Ticks int
+	// Show: processor- and machine-level report options (simbox rules config:<name>): the text VM.Step
+	// returns for every tick is part of the trace
+	Show []string `json:",omitempty"`
 }
+
+var showOptions = []string{"show_pc", "show_instruction", "show_disasm", "show_proc_regs_pre", "show_proc_regs_post", "show_proc_io_pre", "show_proc_io_post", "show_ticks", "show_io_pre", "show_io_post"}
 
 type Case struct {
 	Plans     []SimPlan // distinct simulations
 	Copies    []int     // how many concurrent copies of each plan (sharing one *Bondmachine, as cmd/simfinetune does)
 	YieldSeed uint64
-	YieldMax  int // each worker yields 0..YieldMax times before stepping (0 = hook idle)
-	MaxProcs  int // GOMAXPROCS during the perturbed run
-	Single    bool // also call SinglePipelineSimulate concurrently and compare its report with the solo report
+	YieldMax  int    // each worker yields 0..YieldMax times before stepping (0 = hook idle)
+	MaxProcs  int    // GOMAXPROCS during the perturbed run
+	Single    bool   // also call SinglePipelineSimulate concurrently and compare its report with the solo report
 	DataType  string // number type SinglePipelineSimulate prints the outputs in (static or dynamically created)
 	// Delays: fixed per-opcode latencies (single-valued distributions, so no random source is involved). ONE
 	// *simbox.SimDelays object is shared by every simulation of the case, as cmd/simfinetune shares it
@@ -61,6 +67,13 @@ func genPlan(t *rapid.T, pipelined bool) SimPlan {
 		p.Env.OutStall = append(p.Env.OutStall, rapid.IntRange(0, 3).Draw(t, "stall"))
 	}
 	p.Ticks = rapid.IntRange(5, 80).Draw(t, "ticks")
+	if rapid.IntRange(0, 2).Draw(t, "show") == 0 {
+		for _, o := range showOptions {
+			if rapid.IntRange(0, 2).Draw(t, "showopt") == 0 {
+				p.Show = append(p.Show, o)
+			}
+		}
+	}
 	return p
 }
 
@@ -106,7 +119,13 @@ func genCase(pipelined bool) func(t *rapid.T) Case {
 }
 
 func runPlan(bm *bondmachine.Bondmachine, p SimPlan, delays *simbox.SimDelays) ([]string, [][]uint64, error) {
-	r, err := gen.NewRunner(bm, p.Env, delays)
+	sbox := new(simbox.Simbox)
+	for _, o := range p.Show {
+		if err := sbox.Add("config:" + o); err != nil {
+			return nil, nil, err
+		}
+	}
+	r, err := gen.NewRunnerSB(bm, p.Env, delays, sbox)
 	if err != nil {
 		return nil, nil, err
 	}
@@ -116,7 +135,11 @@ func runPlan(bm *bondmachine.Bondmachine, p SimPlan, delays *simbox.SimDelays) (
 		if err := r.Step(); err != nil {
 			return nil, nil, err
 		}
-		ds = append(ds, r.Digest())
+		d := r.Digest()
+		if len(p.Show) > 0 {
+			d += fmt.Sprintf("|report:%x", sha256.Sum256([]byte(r.LastText)))
+		}
+		ds = append(ds, d)
 	}
 	return ds, r.Out, nil
 }
